@@ -233,6 +233,16 @@ func Emit(r lib.Repo, e *lib.Emitter) {
 				return true
 			})
 			e.Strs("writeSortedDocsNames", args, "writeSortedDocs: the file names created / renamed to")
+			// the success return: what is handed to writeSealedFraction must not alias the pooled docBlocksWriter
+			var ret []string
+			if n := len(fd.Body.List); n > 0 {
+				if r, ok := fd.Body.List[n-1].(*ast.ReturnStmt); ok {
+					for _, x := range r.Results {
+						ret = append(ret, f.Render(x))
+					}
+				}
+			}
+			e.Strs("writeSortedDocsReturn", ret, "writeSortedDocs: results of the final return statement")
 			ss := ErrSites(f, fd.Body, true)
 			e.Bool("writeSortedDocsPropagates", AllProp(ss) && len(ss) > 0, fmt.Sprintf("writeSortedDocs: all %d `err != nil` sites return the error", len(ss)))
 		}
